@@ -30,7 +30,7 @@ type Property struct {
 	// Run generates and executes the workload, calling the oracle
 	Run func(x *Ctx)
 	// Check is the oracle for one (case, result); used by Run and by replay
-	Check func(x *Ctx, c *proto.Case, r *proto.Result)
+	Check       func(x *Ctx, c *proto.Case, r *proto.Result)
 	Assumptions []string
 	// Technique names the deciding method (MANIFEST technique field)
 	Technique string
